@@ -121,7 +121,7 @@ func matchJSONValue(v GVal, n jnode) string {
 			return ""
 		}
 		return bad("nil is neither null nor a fixed placeholder string")
-	case "string", "stringer", "bytes":
+	case "string", "stringer", "tostring", "bytes":
 		if !isStr(n, fixUTF8(v.S)) {
 			return bad("string differs")
 		}
